@@ -27,6 +27,12 @@ pub fn main(subjects: Vec<Box<dyn Subject>>) {
     let only = arg(&args, "--only");
     let only_input = arg(&args, "--input");
     let heartbeat = arg(&args, "--heartbeat");
+    if let Some(n) = arg(&args, "--expect-subjects").and_then(|s| s.parse::<usize>().ok()) {
+        if n != subjects.len() {
+            eprintln!("nvrt: this binary holds {} declarations but the driver built {} (stale or foreign runner binary)", subjects.len(), n);
+            std::process::exit(4);
+        }
+    }
     crate::subject::install_panic_hook();
     let ctx = Ctx { tier, seed, oracle: Oracle::new(), only_input, heartbeat, part, parts, sweep_slice_only: std::cell::Cell::new(false) };
     if property == "C09" {
